@@ -210,7 +210,6 @@ func (it *Interp) opaqueOfType(t types.Type, tag string) Val {
 	return nil
 }
 
-
 // plausibleTime restricts a symbolic instant to [1970, 2116) (0 <= ns < 2^62): a stated bound of every check that uses time.
 func (it *Interp) plausibleTime(t *Term) *Term {
 	it.p.assertAxiom(And(BVCmp("bvsge", t, BVu(timeW, 0)), BVCmp("bvslt", t, BV(timeW, pow2(62)))))
